@@ -12,6 +12,7 @@ import (
 	"gitlab.com/gomidi/midi/v2"
 	cc "gitlab.com/gomidi/midi/v2/internal/verifh/conccases"
 	cp "gitlab.com/gomidi/midi/v2/internal/verifh/concpairs"
+	"gitlab.com/gomidi/midi/v2/internal/verifh/disturb"
 	"gitlab.com/gomidi/midi/v2/internal/verifh/engine"
 	"gitlab.com/gomidi/midi/v2/internal/verifh/refsmf"
 	sp "gitlab.com/gomidi/midi/v2/internal/verifh/smfspace"
@@ -430,6 +431,7 @@ func sortStrings(a []string) {
 
 func main() {
 	ctx = engine.Start("C16", "model_checking")
+	disturb.Install(ctx)
 	if ctx.ReplayPath != "" {
 		if cp.Replay(ctx, ctx.LoadReplay(), "convert", cc.Convert()) {
 			ctx.Finish("replay")
